@@ -5,10 +5,16 @@ Line-protocol driver for C14: per line
 answer {"renders":[the string that is hashed, per node],"inputs":[[input names] per node],
         "labels":[[label per source node] per from_source call]}
 pyval: number (int) | string | {"f":repr} (float) | true/false | null | [ … ] (list) | {"t":[ … ]} (tuple)
+
+optional "heapops": one entry per `transform` whose func hands back an existing action (or the receiver):
+  {"heap":[cell…],"a":i,"kind":"lookup"|"self","targets":[cell index per parameter],"dim":name|[name,[labels]],"axis":n}
+  cell = {"dims":[[name,[labels],indexed]…],"scalars":[[name,label]…],"nodes":[node-object id per position, row-major]}
+answer "heapops": [{"heap":[the cells that existed before, after the call],"result":cell,"cell":index} | {"err":class}]
+(`Names.transformH .always` — the heap model of `Action.transform`).
 -/
 import EkwVerif.Drive.Util
 import EkwVerif.Model.Names
-open Lean EkwVerif.Drive EkwVerif.Names
+open Lean EkwVerif.Drive EkwVerif.Names EkwVerif.Fluent
 
 namespace C14Drive
 
@@ -45,11 +51,78 @@ def sourceOut (j : Json) : Json :=
     | _ => ([], []))
   strs ((sourceLabels items []).map strOf)
 
+/-! ### heap operations -/
+
+def coordOfJson (j : Json) : Coord :=
+  match j with
+  | .str s => .str s
+  | _ => .int (asInt j)
+
+def coordToJson : Coord → Json
+  | .int i => toJson i
+  | .str s => Json.str s
+
+/-- all positions of `dims`, row-major -/
+def positions : List Dim → List (List (String × Nat))
+  | [] => [[]]
+  | x :: rest =>
+    let tails := positions rest
+    (List.range x.labels.length).flatMap (fun i => tails.map (fun t => (x.name, i) :: t))
+
+def ixOf (p : List (String × Nat)) : Ix := fun n =>
+  match p.find? (·.1 = n) with
+  | some (_, i) => i
+  | none => 0
+
+def sortScalars (l : List (String × Coord)) : List (String × Coord) :=
+  (l.toArray.qsort (fun a b => a.1 < b.1)).toList
+
+def cellOfJson (j : Json) : NodeArray :=
+  let dims : List Dim := (getArr j "dims").map (fun d => match asArr d with
+    | [n, ls, ix] => { name := asStr n, labels := (asArr ls).map coordOfJson, indexed := (ix.getBool?).toOption.getD true }
+    | _ => { name := "", labels := [] })
+  let scalars := (getArr j "scalars").map (fun p => match asArr p with | [n, v] => (asStr n, coordOfJson v) | _ => ("", .int 0))
+  let ids := ((getArr j "nodes").map asNat).toArray
+  { dims := dims, scalars := scalars, node := fun ix => .src (ids.getD (flatIndex dims ix) 0) }
+
+def srcId : Expr → Nat
+  | .src i => i
+  | _ => 0
+
+def cellToJson (a : NodeArray) : Json :=
+  Json.mkObj [
+    ("dims", Json.arr (a.dims.map (fun d => Json.arr #[Json.str d.name, Json.arr (d.labels.map coordToJson).toArray, Json.bool d.indexed])).toArray),
+    ("scalars", Json.arr ((sortScalars a.scalars).map (fun (n, v) => Json.arr #[Json.str n, coordToJson v])).toArray),
+    ("nodes", nats ((positions a.dims).map (fun p => srcId (a.node (ixOf p)))))]
+
+def errStr : Err → String
+  | .key => "key" | .index => "index" | .assert => "assert" | .type => "type"
+  | .notimpl => "notimpl" | .value => "value" | .other => "other" | .outOfScope => "outOfScope"
+
+def dimArgOf (j : Json) : DimArg :=
+  match j with
+  | .str s => .name s
+  | _ => match asArr j with
+    | [n, ls] => .coord (asStr n) ((asArr ls).map coordOfJson)
+    | _ => .name ""
+
+def heapOp (j : Json) : Json :=
+  let h : Heap := (getArr j "heap").map cellOfJson
+  let targets := (getArr j "targets").map asNat
+  let f : TFunc Nat := if getStr j "kind" == "self" then .self else .lookup (fun p => targets.getD p h.length)
+  let params := List.range targets.length
+  match transformH .always h (getNat j "a") f params (dimArgOf ((j.getObjVal? "dim").toOption.getD Json.null)) (getNat j "axis") with
+  | .error e => Json.mkObj [("err", Json.str (errStr e))]
+  | .ok (h', r) =>
+    Json.mkObj [("heap", Json.arr ((h'.take h.length).map cellToJson).toArray),
+                ("result", cellToJson (h'.cell r)), ("cell", toJson r)]
+
 def run (j : Json) : Json :=
   let outs := (getArr j "nodes").map nodeOut
   Json.mkObj [("renders", Json.arr (outs.map (·.1)).toArray),
               ("inputs", Json.arr (outs.map (·.2)).toArray),
-              ("labels", Json.arr ((getArr j "sources").map sourceOut).toArray)]
+              ("labels", Json.arr ((getArr j "sources").map sourceOut).toArray),
+              ("heapops", Json.arr ((getArr j "heapops").map heapOp).toArray)]
 
 end C14Drive
 
